@@ -25,10 +25,11 @@ const (
 )
 
 type flowInfo struct {
-	kind int
-	rep  string // for flowRepeat: "fixed" | "thead" | "tfoot"
-	id   string // element id of the flow root ("" for the normal flow)
-	toks []int
+	kind   int
+	inLine bool   // flowFloat: the float sits inside a line, glued to the words around it
+	rep    string // for flowRepeat: "fixed" | "thead" | "tfoot"
+	id     string // element id of the flow root ("" for the normal flow)
+	toks   []int
 }
 
 // General is one generated general document.
@@ -37,6 +38,12 @@ type General struct {
 	Flows    []*flowInfo
 	FlowOf   map[int]int // token id -> flow index
 	Features map[string]bool
+	// Letters: the marker letter that starts a paragraph styled with ::first-letter -> is the letter floated
+	Letters map[string]bool
+	// FFFirstTok: the token glued to the marker letter of a paragraph with a FLOATED ::first-letter
+	FFFirstTok map[int]bool
+	// InlineFloatPara: tokens of paragraphs that contain a float between two words of a line
+	InlineFloatPara map[int]bool
 }
 
 type ggen struct {
@@ -100,9 +107,61 @@ func (g *ggen) breaks() string {
 	return strings.Join(st, ";")
 }
 
+// firstLetterPara writes a paragraph styled with ::first-letter: an extra marker letter (not part of
+// any token) starts the paragraph, optionally preceded by punctuation and wrapped in nested spans.
+func (g *ggen) firstLetterPara(floated, punct, nested bool, n int, style string) {
+	marker := string(rune('A' + len(g.doc.Letters)%26))
+	g.doc.Letters[marker] = floated
+	class := "fi"
+	if floated {
+		class = "ff"
+		g.feat["first-letter-float"] = true
+	} else {
+		g.feat["first-letter"] = true
+	}
+	fmt.Fprintf(&g.buf, `<div class="%s" style="%s">`, class, style)
+	pre := ""
+	if punct {
+		pre = `"`
+	}
+	if floated {
+		g.doc.FFFirstTok[g.n+1] = true
+	}
+	if nested {
+		g.buf.WriteString("<span><span>" + pre + marker + g.tok() + "</span> " + g.tok() + "</span>")
+	} else {
+		g.buf.WriteString(pre + marker + g.tok())
+	}
+	for i := 1; i < n; i++ {
+		g.buf.WriteString(" " + g.tok())
+	}
+	g.buf.WriteString("</div>")
+}
+
+// floatInLine writes a paragraph with a float glued between two words (no white space around it).
+func (g *ggen) floatInLine(before, after, inFloat int, side string) {
+	start := g.n + 1
+	g.buf.WriteString(`<div>`)
+	g.lines(before, true)
+	restore, id := g.newFlow(flowFloat)
+	g.doc.Flows[g.cur].inLine = true
+	fmt.Fprintf(&g.buf, `<span id="%s" style="float:%s">`, id, side)
+	g.lines(inFloat, false)
+	g.buf.WriteString(`</span>`)
+	restore()
+	g.lines(after, true)
+	g.buf.WriteString(`</div>`)
+	for t := start; t <= g.n; t++ {
+		if g.doc.FlowOf[t] == g.cur {
+			g.doc.InlineFloatPara[t] = true
+		}
+	}
+	g.feat["float-in-line"] = true
+}
+
 func (g *ggen) item(depth int, allowOOF bool) {
 	r := g.r
-	c := r.Intn(14)
+	c := r.Intn(17)
 	switch {
 	case c <= 4 || depth > 2: // paragraph
 		sp := r.P(1, 4)
@@ -151,7 +210,11 @@ func (g *ggen) item(depth int, allowOOF bool) {
 		g.buf.WriteString(g.tok())
 		g.buf.WriteString("</div>")
 		g.feat["inline-block"] = true
-	case c >= 12: // table with header / footer groups
+	case c == 14 || c == 15: // ::first-letter, inline or floated
+		g.firstLetterPara(c == 15 && allowOOF && r.Bool(), r.Bool(), r.P(1, 3), 1+r.Intn(6), g.breaks())
+	case c == 16 && allowOOF: // a float inside a line
+		g.floatInLine(1+r.Intn(3), 1+r.Intn(3), 1+r.Intn(2), rng.Pick(r, "left", "right"))
+	case c == 12 || c == 13: // table with header / footer groups
 		g.buf.WriteString(`<table style="border-spacing:0">`)
 		if r.Bool() {
 			restore, id := g.newFlow(flowRepeat)
@@ -184,14 +247,24 @@ func (g *ggen) item(depth int, allowOOF bool) {
 	}
 }
 
+func newGeneral(r *rng.R) (*General, *ggen) {
+	d := &General{FlowOf: map[int]int{}, Features: map[string]bool{}, Letters: map[string]bool{}, InlineFloatPara: map[int]bool{}, FFFirstTok: map[int]bool{}}
+	d.Flows = []*flowInfo{{kind: flowNormal}}
+	return d, &ggen{r: r, doc: d, feat: d.Features}
+}
+
+// head writes the style sheet: page content height h px, width 200 px.
+func (g *ggen) head(h int) {
+	fmt.Fprintf(&g.buf, `<style>@page{size:220px %dpx;margin:10px} html,body{margin:0;font:20px/20px Ahem} td{padding:0} `+
+		`.fi::first-letter{color:red} .ff::first-letter{float:left}</style><body>`, h+20)
+}
+
 // GenGeneral builds a general document.  mode 0: everything; 1: floats only (besides blocks);
 // 2: no out-of-flow boxes (tables, inline-blocks, wrapped text).
 func GenGeneral(r *rng.R, mode int) *General {
-	d := &General{FlowOf: map[int]int{}, Features: map[string]bool{}}
-	d.Flows = []*flowInfo{{kind: flowNormal}}
-	g := &ggen{r: r, doc: d, feat: d.Features}
+	d, g := newGeneral(r)
 	h := 60 + r.Intn(8)*20
-	fmt.Fprintf(&g.buf, `<style>@page{size:220px %dpx;margin:10px} html,body{margin:0;font:20px/20px Ahem} td{padding:0}</style><body>`, h+20)
+	g.head(h)
 	k := 2 + r.Intn(6)
 	for i := 0; i < k; i++ {
 		g.item(0, mode != 2)
@@ -239,7 +312,53 @@ func elementFragments(pages []*bo.PageBox) map[string]int {
 	return out
 }
 
+// CorpusGeneral: minimal documents of past defects (corpus/C02/*.json documents the same inputs),
+// run first on every tier.
+func CorpusGeneral() []*General {
+	var out []*General
+	mk := func(h int, f func(g *ggen)) {
+		d, g := newGeneral(rng.New(1))
+		g.head(h)
+		f(g)
+		d.HTML = g.buf.String()
+		d.Features["corpus"] = true
+		out = append(out, d)
+	}
+	// fixed 7e74871: the first letter of a paragraph styled with ::first-letter was never laid out
+	mk(140, func(g *ggen) { g.firstLetterPara(false, false, false, 2, "") })
+	// ... with punctuation before the letter, inside nested spans
+	mk(140, func(g *ggen) { g.firstLetterPara(false, true, true, 3, "") })
+	// ... on a paragraph that is pushed to the next page (laid out twice) and after a forced break
+	mk(60, func(g *ggen) {
+		g.buf.WriteString(`<div>`)
+		g.lines(2, false)
+		g.buf.WriteString(`</div>`)
+		g.firstLetterPara(false, true, false, 4, "break-inside:avoid")
+		g.firstLetterPara(false, false, true, 2, "break-before:page")
+	})
+	// KF02-5 (recorded): floated ::first-letter
+	mk(140, func(g *ggen) { g.firstLetterPara(true, true, false, 2, "") })
+	// KF02-6 (recorded): a float glued between two words of a line that has to wrap
+	mk(140, func(g *ggen) { g.floatInLine(2, 2, 1, "left") })
+	return out
+}
+
 func runGeneral(m *mp.Model, r *rng.R, n int, fonts text.FontConfiguration, out *res.Result) error {
+	for _, doc := range CorpusGeneral() {
+		var pages []*bo.PageBox
+		var rec *render.Rec
+		o := render.Guard(20*time.Second, func() {
+			if d, err := render.Full(doc.HTML, fonts, render.Opts{}); err == nil {
+				pages, rec = d.Pages, d.Rec
+			}
+		})
+		out.Hit("general:corpus")
+		if !o.OK() {
+			out.Add(res.Finding{Kind: "crash", Op: "crash:corpus", Input: doc.HTML, Reason: o.Panic, Key: o.Site})
+			continue
+		}
+		generalCase(m, doc, pages, rec, 0, out)
+	}
 	timeouts := 0
 	for i := 0; i < n; i++ {
 		sub := r.Sub()
@@ -284,7 +403,56 @@ func generalCase(m *mp.Model, doc *General, pages []*bo.PageBox, rec *render.Rec
 	for f := range doc.Features {
 		out.Hit("general:feature:" + f)
 	}
-	perPage, stray := tokensOf(pages)
+	perPage, stray0 := tokensOf(pages)
+	// the marker letters of ::first-letter paragraphs (with the punctuation that belongs to the letter)
+	letterCount := map[string]int{}
+	var stray []string
+	for _, w := range stray0 {
+		l := strings.TrimLeft(w, "\"'(")
+		if _, ok := doc.Letters[l]; ok {
+			letterCount[l]++
+			continue
+		}
+		remnant := false
+		for t := range doc.FFFirstTok {
+			if len(w) < 3 && strings.HasSuffix(Tok(t), w) {
+				remnant = true // what is left of the first word of a floated-::first-letter paragraph (KF02-5)
+			}
+		}
+		if !remnant {
+			stray = append(stray, w)
+		}
+	}
+	var lostFFWords []string // first words of floated-::first-letter paragraphs that lost (more) leading letters
+	var lostFloated, lostInline, dupLetters []string
+	for l, floated := range doc.Letters {
+		switch n := letterCount[l]; {
+		case n == 0 && floated:
+			lostFloated = append(lostFloated, l)
+		case n == 0:
+			lostInline = append(lostInline, l)
+		case n > 1:
+			dupLetters = append(dupLetters, l)
+		}
+	}
+	sort.Strings(lostFloated)
+	sort.Strings(lostInline)
+	sort.Strings(dupLetters)
+	emitFirstLetterFloat := func() {
+		if len(lostFloated) == 0 && len(lostFFWords) == 0 {
+			return
+		}
+		// KF02-5: exactly this op / key when the lost text is the first letter of a paragraph with a floated ::first-letter
+		out.Add(res.Finding{Kind: "judge", Op: "judge:first-letter-float", Input: doc.HTML, Impl: fmt.Sprint(perPage),
+			Reason: fmt.Sprintf("the floated ::first-letter %v of a paragraph is on no page; first words that lost further leading letters when the paragraph was laid out again on a later page: %v", lostFloated, lostFFWords),
+			Key:    "first-letter-float", Seed: seed})
+		out.Hit("general:violation:first-letter-float")
+	}
+	if len(lostInline) != 0 || len(dupLetters) != 0 {
+		out.Add(res.Finding{Kind: "judge", Op: "judge:first-letter", Input: doc.HTML, Impl: fmt.Sprint(perPage),
+			Reason: fmt.Sprintf("::first-letter text lost %v, laid out more than once %v", lostInline, dupLetters), Key: "first-letter", Seed: seed})
+		out.Hit("general:violation:first-letter")
+	}
 	if len(stray) != 0 {
 		out.Add(res.Finding{Kind: "judge", Op: "judge:general-stray-text", Input: doc.HTML, Reason: fmt.Sprintf("text that is not in the document: %q", stray), Seed: seed})
 	}
@@ -341,7 +509,9 @@ func generalCase(m *mp.Model, doc *General, pages []*bo.PageBox, rec *render.Rec
 		case flowFloat:
 			// history predicate: the float was split (>= 2 fragments generated by the float element, or
 			// part of its text is on no page although the float was laid out)
-			if frags[f.id] >= 2 || (v == "lost" && frags[f.id] >= 1) {
+			if f.inLine && frags[f.id] < 2 {
+				add("float-in-line", fmt.Sprintf("float %s inside a line (%d fragments): text %s %v", f.id, frags[f.id], v, names))
+			} else if frags[f.id] >= 2 || (v == "lost" && frags[f.id] >= 1) {
 				add("float-fragmented", fmt.Sprintf("float %s (%d fragments): text %s %v", f.id, frags[f.id], v, names))
 			} else {
 				add("float-unsplit", fmt.Sprintf("float %s (%d fragments): text %s %v", f.id, frags[f.id], v, names))
@@ -353,9 +523,30 @@ func generalCase(m *mp.Model, doc *General, pages []*bo.PageBox, rec *render.Rec
 				add("abspos-unsplit", fmt.Sprintf("abs-pos %s (%d fragments): text %s %v", f.id, frags[f.id], v, names))
 			}
 		default:
-			add("normal-flow", fmt.Sprintf("normal flow: text %s %v", v, names))
+			// partition the lost / duplicated tokens by the construct they belong to
+			var ff, inl, rest []string
+			for _, t := range bad {
+				switch {
+				case doc.FFFirstTok[t] && v == "lost":
+					ff = append(ff, Tok(t))
+				case doc.InlineFloatPara[t]:
+					inl = append(inl, Tok(t))
+				default:
+					rest = append(rest, Tok(t))
+				}
+			}
+			if len(ff) != 0 {
+				lostFFWords = append(lostFFWords, ff...)
+			}
+			if len(inl) != 0 {
+				add("float-in-line", fmt.Sprintf("words of a line glued to a float: text %s %v", v, inl))
+			}
+			if len(rest) != 0 || len(bad) == 0 {
+				add("normal-flow", fmt.Sprintf("normal flow: text %s %v", v, rest))
+			}
 		}
 	}
+	emitFirstLetterFloat()
 	classes := make([]string, 0, len(byClass))
 	for c := range byClass {
 		classes = append(classes, c)
